@@ -355,7 +355,7 @@ void Mtz::read_history_and_batch_headers(AnyStream& stream) {
           fail("Wrong BH header");
         stream.read(buf, 80); // TITLE
         const char* end = rtrim_cstr(buf + 6, buf+76);
-        batch.title.assign(buf, end - buf);
+        batch.title.assign(buf + 6, end - (buf + 6));
         batch.ints.resize(int_words);
         stream.read(batch.ints.data(), int_words * 4);
         batch.floats.resize(float_words);
